@@ -223,8 +223,15 @@ def run(ctx):
                                       {"cmd": "loader_step %d %d %d" % (int(fopen), int(bopen), w), "real": real})
                 # invariant: block open => function open is preserved from reachable states
                 if reachable and beh[3] and not beh[2] and not beh[0].startswith("panic"):
-                    ctx.ob("loader/%s/invariant" % state, False, str(beh))
-                    ctx.violation("loader/invariant-broken", "from state (%s) the loader reaches (function none, block open): %s" % (state, beh), None)
+                    stt, m = q.check(r.pc + [inC], "invariant-witness")
+                    w = m.eval(op, model_completion=True).as_long() if stt == "sat" else None
+                    real = rp.ask("loader_step %d %d %d" % (int(fopen), int(bopen), w)) if w is not None else {}
+                    if real.get("f") is False and real.get("b") is True:
+                        ctx.ob("loader/%s/invariant" % state, False, str(beh))
+                        ctx.violation("loader/invariant-broken", "from state (%s) Op%s takes the loader to (function none, block open): %s" % (state, names_of[w][0], real),
+                                      {"cmd": "loader_step %d %d %d" % (int(fopen), int(bopen), w), "real": real})
+                    else:
+                        ctx.ob("loader/%s/invariant" % state, None, "model-only: %s; the compiled crate: %s" % (beh, real))
     # ---- finalize
     ffn = mf.get("finalize", file_hint="loader.rs", kind="fn")
     for fopen in (False, True):
